@@ -151,6 +151,9 @@ class FieldBase(metaclass=ABCMeta):
                 raise ValueError(msg)
             # actually set the data
             self.__data_full = value
+            # drop cached helpers (e.g., interpolators), which might still refer to the
+            # memory of the previous array
+            self._cache_methods = {}
 
         else:
             msg = f"Cannot set field values to {value}"
